@@ -443,6 +443,22 @@ def element_unit():
         header_out="impl Element"))
     items.append(Item(E_, "impl CurveGroup for Element", [
         Fn("into_affine", ensures="r.inner == of_aff(to_affine(repr(self.inner)))", props=("C06",), preamble=BUE)], header_out="impl Element"))
+    # batch conversion / normalisation: every output is the affine form of the corresponding input (R28 desugars the
+    # two map/collect chains; the arkworks batch routine is assumed to agree with element-wise conversion, A-ARK-2)
+    def batch(hdr, fname, var, ark_fn):
+        inv0 = f"""invariant src_@ == {var}@, i_ <= src_@.len(), out_@.len() == i_ as int,
+                        forall|k: int| 0 <= k < i_ ==> #[trigger] out_@[k] == {var}@[k].inner,
+                    decreases src_@.len() - i_"""
+        inv1 = f"""invariant i_ <= src_@.len(), out_@.len() == i_ as int, src_@.len() == {var}@.len(),
+                        forall|k: int| 0 <= k < src_@.len() ==> #[trigger] src_@[k] == of_aff(to_affine(repr({var}@[k].inner))),
+                        forall|k: int| 0 <= k < i_ ==> #[trigger] out_@[k] == (AffinePoint {{ inner: of_aff(to_affine(repr({var}@[k].inner))) }}),
+                    decreases src_@.len() - i_"""
+        items.append(Item(E_, hdr, [Fn(fname, props=("C06",), preamble=BUE,
+                                       ensures=f"r@.len() == {var}@.len(), forall|k: int| 0 <= k < {var}@.len() ==> (#[trigger] r@[k]).inner == of_aff(to_affine(repr({var}@[k].inner)))",
+                                       loops={0: inv0, 1: inv1},
+                                       subst=[("R6", r'&(\w+)\[\s*\.\.\s*\]', r'\1.as_slice()')])], header_out="impl Element"))
+    batch("impl CurveGroup for Element", "normalize_batch", "v", "normalize_batch")
+    batch("impl ScalarMul for Element", "batch_convert_to_mul_base", "bases", "batch_convert_to_mul_base")
     items.append(Item(E_, "impl AffineRepr for AffinePoint", [
         Fn("zero", ensures="arepr(r.inner) == id4()", props=("C06",), preamble=BUE),
         Fn("is_zero", ensures="r == spec_is_identity(arepr(self.inner))", props=("C08",), preamble=BUE),
